@@ -173,6 +173,8 @@ class Effects:
         self.total_calls = 0
         self.resolved_calls = 0
         self.unresolved_names: Dict[str, int] = {}
+        self.edges: Dict[str, set] = {}  # caller FunctionInfo.key -> callee keys (resolved package calls)
+        self.fn_by_key: Dict[str, FunctionInfo] = {}
 
     # ------------------------------------------------------------------------------------
     def summary(self, fi: FunctionInfo, recv: Optional[ClassInfo] = None, copy: Optional[bool] = None) -> Summary:
@@ -206,6 +208,19 @@ class Effects:
         if fi is None:
             raise AnalysisError(f"{cls.name}.{name} not found through the MRO")
         return fi, self.summary(fi, cls, copy)
+
+    def reachable(self, fi: FunctionInfo, recv: Optional[ClassInfo] = None, copy: Optional[bool] = None) -> List[FunctionInfo]:
+        """Package functions reachable from ``fi`` through resolved calls (``fi`` included)."""
+        self.summary(fi, recv, copy)
+        self.fn_by_key[fi.key] = fi
+        seen, todo = [], [fi.key]
+        while todo:
+            k = todo.pop()
+            if k in seen:
+                continue
+            seen.append(k)
+            todo.extend(sorted(self.edges.get(k, ())))
+        return [self.fn_by_key[k] for k in seen]
 
     def immutable_attrs(self, cls: ClassInfo) -> set:
         key = ("imm", cls.name)
@@ -650,6 +665,11 @@ class _FnAnalysis:
             return Val(epaths=self.ev(e.elt, inner).allpaths)
         if isinstance(e, ast.IfExp):
             self.ev(e.test, st)
+            folded = self.const_test(e.test)
+            if folded is True:
+                return self.ev(e.body, st)
+            if folded is False:
+                return self.ev(e.orelse, st)
             return self.ev(e.body, st).join(self.ev(e.orelse, st))
         if isinstance(e, ast.BoolOp):
             out = None
@@ -830,6 +850,9 @@ class _FnAnalysis:
                     binding[p] = star.elem()
             if a.kwarg:
                 binding[a.kwarg.arg] = binding.get(a.kwarg.arg, FRESH).join(Val(epaths=star.allpaths))
+        self.eng.edges.setdefault(self.fi.key, set()).add(fi.key)
+        self.eng.fn_by_key[fi.key] = fi
+        self.eng.fn_by_key[self.fi.key] = self.fi
         summ = self.eng.summary(fi, recv_cls if is_method else None, copyflag if is_method else None)
 
         def subst(p: Path) -> FrozenSet[Path]:
